@@ -74,10 +74,39 @@ def compositions(n: int) -> List[Tuple[int, ...]]:
     return out
 
 
-ATOMS = ['any', 'one', 'not', 'rng', 'rgs', 'str', 'stn', 'ist', 'by3', 'eof', 'bof', 'bol', 'eol', 'eolf', 'evr', 'rq2', 'suc', 'fai', 'r13', 'r02', 'rn2']
+ATOMS = ['any', 'one', 'not', 'rng', 'rgs', 'str', 'stn', 'ist', 'by3', 'eof', 'bof', 'bol', 'eol', 'eolf', 'evr', 'rq2', 'suc', 'fai', 'r13', 'r02', 'rn2', 'u8r', 'u8n', 'u8w']
 
 
 REP_ONE = {'r13': (1, 3, 0x61), 'r02': (0, 2, 0x61), 'rn2': (1, 2, 0x0a)}
+UTF8_RANGE = {'u8r': (True, 0x80, 0x7FF), 'u8n': (False, 0x61, 0xFFFF), 'u8w': (True, 0, 0x10FFFF)}   # utf8::range / utf8::not_range
+
+
+def peek_utf8(rem: bytes) -> Tuple[Optional[Tuple[int, int]], int]:
+    """internal/peek_utf8.hpp as documented: ( ( code point, size ) or None, largest amount asked of the input )."""
+    if not rem:
+        return None, 1
+    c0 = rem[0]
+    if c0 & 0x80 == 0:
+        return (c0, 1), 1
+    if c0 & 0xE0 == 0xC0:
+        if len(rem) >= 2 and rem[1] & 0xC0 == 0x80:
+            c = ((c0 & 0x1F) << 6) | (rem[1] & 0x3F)
+            if c >= 0x80:
+                return (c, 2), 2
+        return None, 2
+    if c0 & 0xF0 == 0xE0:
+        if len(rem) >= 3 and rem[1] & 0xC0 == 0x80 and rem[2] & 0xC0 == 0x80:
+            c = ((c0 & 0x0F) << 12) | ((rem[1] & 0x3F) << 6) | (rem[2] & 0x3F)
+            if c >= 0x800 and not 0xD800 <= c <= 0xDFFF:
+                return (c, 3), 3
+        return None, 3
+    if c0 & 0xF8 == 0xF0:
+        if len(rem) >= 4 and rem[1] & 0xC0 == 0x80 and rem[2] & 0xC0 == 0x80 and rem[3] & 0xC0 == 0x80:
+            c = ((c0 & 0x07) << 18) | ((rem[1] & 0x3F) << 12) | ((rem[2] & 0x3F) << 6) | (rem[3] & 0x3F)
+            if 0x10000 <= c <= 0x10FFFF:
+                return (c, 4), 4
+        return None, 4
+    return None, 1
 
 
 def atom_spec(name: str, stream: bytes, byte: int, col: int, eol: str) -> Tuple[bool, int, int]:
@@ -131,6 +160,13 @@ def atom_spec(name: str, stream: bytes, byte: int, col: int, eol: str) -> Tuple[
         return (True, 0, 0)
     if name == 'fai':
         return (False, 0, 0)
+    if name in UTF8_RANGE:
+        found, lo, hi = UTF8_RANGE[name]
+        t, amount = peek_utf8(rem)
+        if t is None:
+            return (False, 0, amount)
+        ok = (lo <= t[0] <= hi) == found
+        return (ok, t[1] if ok else 0, amount)
     if name in REP_ONE:              # contrib rep_one_min_max< lo, hi, c >: looks at Max + 1 bytes, counts the leading c's
         lo, hi, ch = REP_ONE[name]
         w = rem[:hi + 1]
@@ -235,6 +271,11 @@ SMALL_STREAM = bytes([0x61, 0x62, 0x0a, 0x63, 0x0d, 0x0a, 0x64, 0x65])      # a 
 ALPHABET = ['S1', 'S2', 'R3', 'E', 'B1', 'B2', 'D', 'P0', 'W0', 'U0', 'Many', 'Mstn', 'Meolf']
 
 
+UTF8_TOKENS = [b'a', b'a', b'\n', b'\r', b'z', b'\xc3\xa4', b'\xdf\xbf', b'\xc2\x80', b'\xe2\x82\xac', b'\xe0\xa0\x80', b'\xef\xbf\xbf',
+               b'\xf0\x9f\x98\x80', b'\xf4\x8f\xbf\xbf', b'\xf0\x90\x80\x80', b'\xc0\x80', b'\xc1\xbf', b'\xe0\x80\x80', b'\xed\xa0\x80', b'\xed\xbf\xbf',
+               b'\xf4\x90\x80\x80', b'\xf0\x80\x80\x80', b'\x80', b'\xbf', b'\xc3', b'\xe2\x82', b'\xf0\x9f', b'\xf0\x9f\x98', b'\xf8', b'\xff', b'\xc3a', b'\xe2a\xac']
+
+
 def gen_leaf_cases(tier: str, rng: random.Random) -> Tuple[List[LeafCase], Dict[str, Any]]:
     cases: List[LeafCase] = []
     dist: Dict[str, Any] = {'families': {}}
@@ -273,6 +314,8 @@ def gen_leaf_cases(tier: str, rng: random.Random) -> Tuple[List[LeafCase], Dict[
     for j in range(nrand):
         n = rng.choice([rng.randint(9, 40), rng.randint(9, 40), rng.randint(41, 300)])
         stream = bytes(rng.choice([0x61, 0x62, 0x63, 0x61, 0x0a, 0x0d, 0x00, 0xff, 0x42, 0x7a]) for _ in range(n))
+        if j % 3 == 2:           # UTF-8: valid sequences of every length, truncated / overlong / surrogate / stray bytes, some ASCII
+            stream = b''.join(rng.choice(UTF8_TOKENS) for _ in range(n))[:n]
         chunk = rng.choice(CHUNKS)
         maximum = rng.choice([rng.randint(1, 40), rng.randint(1, 40), rng.randint(1, 8), rng.randint(41, 320)])
         st = rng.choice(['ones', 'small', 'wild', 'full', 'prefix'])
@@ -391,7 +434,10 @@ def judge_leaf(c: LeafCase, out: str) -> Tuple[List[str], Dict[str, int]]:
                 st['ovf'] += 1
                 if not (amount > 0 and p['cur'] + amount > cap and amount > p['occ']):
                     fails.append(f"{where}: std::overflow_error although the rule asks for at most {amount} bytes at data offset {p['cur']} with capacity {cap}")
-                if tok[1:] != 'evr' and not unchanged:
+                if tok[1:] in UTF8_RANGE:        # empty() may have fetched before size( 2 | 3 | 4 ) threw: the position must be the same
+                    if not same_pos:
+                        fails.append(f"{where}: overflow_error but the position changed")
+                elif tok[1:] != 'evr' and not unchanged:
                     fails.append(f"{where}: overflow_error but the input changed")
             else:
                 exp = scan(stream, ch, p['byte'], p['line'], p['col'], adv)
